@@ -488,6 +488,51 @@ func negOp(op token.Token) token.Token {
 }
 
 // rng computes a conservative interval for integer value v at block b.
+// lenUB: an upper bound of len(x) - the length of an array, of a slice of an array with constant bounds, of a
+// make with a constant length (posInf when unknown).
+func (bc *boundsCtx) lenUB(x ssa.Value, b *ssa.BasicBlock) int64 {
+	x = strip(x)
+	arrLen := func(t types.Type) int64 {
+		if p, ok := t.Underlying().(*types.Pointer); ok {
+			t = p.Elem()
+		}
+		if a, ok := t.Underlying().(*types.Array); ok {
+			return a.Len()
+		}
+		return posInf
+	}
+	switch v := x.(type) {
+	case *ssa.Slice:
+		hi := arrLen(v.X.Type())
+		if v.High != nil {
+			hr := bc.rng(v.High, b)
+			if hr.hi < hi {
+				hi = hr.hi
+			}
+		} else if hi == posInf {
+			hi = bc.lenUB(v.X, b)
+		}
+		if hi == posInf {
+			return posInf
+		}
+		lo := int64(0)
+		if v.Low != nil {
+			if lr := bc.rng(v.Low, b); lr.lo > 0 {
+				lo = lr.lo
+			}
+		}
+		if hi-lo < 0 {
+			return 0
+		}
+		return hi - lo
+	case *ssa.MakeSlice:
+		if r := bc.rng(v.Len, b); r.hi != posInf {
+			return r.hi
+		}
+	}
+	return arrLen(x.Type())
+}
+
 func (bc *boundsCtx) rng(v ssa.Value, b *ssa.BasicBlock) irange {
 	r := irange{lo: negInf, hi: posInf}
 	if bc.depth > 10 {
@@ -524,6 +569,18 @@ func (bc *boundsCtx) rng(v ssa.Value, b *ssa.BasicBlock) irange {
 		if la := lenArg(x); la != nil {
 			r.lo = bc.lenLB(la, b)
 			r.lenOf, r.lenMinus = la, 0
+			if ub := bc.lenUB(la, b); ub < r.hi {
+				r.hi = ub
+			}
+		}
+		if bi, isB := x.Call.Value.(*ssa.Builtin); isB && bi.Name() == "copy" && len(x.Call.Args) == 2 {
+			// copy returns min(len(dst), len(src))
+			r.lo = 0
+			for _, a := range x.Call.Args {
+				if ub := bc.lenUB(a, b); ub < r.hi {
+					r.hi = ub
+				}
+			}
 		}
 		// a repository helper returning an index: the interval of its returns, and "result < len(parameter)" when every
 		// return is negative or an index proved below the length of that same parameter (an index-of function)
@@ -657,9 +714,14 @@ func (bc *boundsCtx) rng(v ssa.Value, b *ssa.BasicBlock) irange {
 		op := bin.Op
 		var other ssa.Value
 		nv := bc.norm(v)
-		if bin.X == v || bc.norm(bin.X) == nv {
+		// len(x) is computed anew at each use: two such calls on the same sequence denote the same number
+		sameLen := func(u ssa.Value) bool {
+			la, lb := lenArg(strip(u)), lenArg(strip(v))
+			return la != nil && lb != nil && bc.sameSeq(la, lb)
+		}
+		if bin.X == v || bc.norm(bin.X) == nv || sameLen(bin.X) {
 			other = bin.Y
-		} else if bin.Y == v || bc.norm(bin.Y) == nv {
+		} else if bin.Y == v || bc.norm(bin.Y) == nv || sameLen(bin.Y) {
 			other = bin.X
 			op = flipOp(op)
 		} else {
